@@ -451,7 +451,7 @@ func structsOver(ts []typeSpec, max int) []typeSpec {
 	return out
 }
 
-var decodeTexts = []string{`null`, `true`, `1`, `-1.5`, `1e3`, `300`, `1.0`, `"s"`, `"1"`, `"aGk="`, `""`, `[]`, `[1,2,3]`, `[null]`, `["a",null]`, `{}`,
+var decodeTexts = []string{`{"own":1,"Z":3,"w":"w","X":5,"Y":2,"v":7,"V":8}`, `{"X":"str","Z":null,"w":null}`, `null`, `true`, `1`, `-1.5`, `1e3`, `300`, `1.0`, `"s"`, `"1"`, `"aGk="`, `""`, `[]`, `[1,2,3]`, `[null]`, `["a",null]`, `{}`,
 	`{"x":1,"A":2,"a":3,"B":null}`, `{"x":"1","A":"2"}`, `{"A":{"A":"in"},"c":true}`, `{"10":1,"-2":null,"b<":2}`, `{"a":[1],"b":{"c":null}}`, `[[1],[2,3]]`, `12345678901234567890`, `{"a":1,"b":2,"c":"y","z":true,"A2":"t"}`, `{"b":"wrong type","a":5}`, "{\"c\u007fd\":5,\"C_D\":6}", `{"c\u007fd":7}`, `{"x":7,"y":null,"z":8,"A":null}`,
 	`{"v":{"n<":5},"p":[1],"pv":"str","t":"txt","tp":"p","m":{"k":1},"i":{"a":1.50},"s":[{},1],"mm":{"q":[2],"z":null}}`, `"plain text"`, `[7 ,8]`}
 
@@ -740,7 +740,69 @@ func methodTypes() []typeSpec {
 	}
 }
 
+// embedding SHAPES (Go's dominant-field rule): one struct reached along two and three paths at the same depth
+// (by value and through a pointer) that itself embeds another struct, a shallower field shadowing the
+// ambiguous one, a tagged field against an untagged one of the same name at the same depth.
+type DLeaf struct {
+	Z int
+	W string `json:"w"`
+}
+type DMid struct {
+	X int
+	DLeaf
+}
+type DA struct{ DMid }
+type DB struct{ *DMid }
+type DC struct {
+	DMid
+	Y int
+}
+type dTop2 struct {
+	Own int `json:"own"`
+	DA
+	DB
+}
+type dTop3 struct {
+	DA
+	DB
+	DC
+}
+type dShadow struct {
+	X string
+	DA
+	DB
+}
+type DTagged struct {
+	X int `json:"X"`
+	V int `json:"v"`
+}
+type DPlain struct {
+	X int
+	V int
+}
+type dTagTop struct {
+	DTagged
+	DPlain
+}
+type dTwoPlain struct {
+	DPlain
+	DMid
+}
+
 func embeddedTypes() []typeSpec {
+	mid := DMid{X: 5, DLeaf: DLeaf{Z: 3, W: "w"}}
+	shapes := []typeSpec{
+		{reflect.TypeOf(dTop2{}), mk(dTop2{}, dTop2{Own: 1, DA: DA{mid}, DB: DB{&mid}}, dTop2{Own: 1, DA: DA{mid}})},
+		{reflect.TypeOf(dTop3{}), mk(dTop3{}, dTop3{DA: DA{mid}, DB: DB{&mid}, DC: DC{mid, 2}})},
+		{reflect.TypeOf(dShadow{}), mk(dShadow{}, dShadow{X: "top", DA: DA{mid}, DB: DB{&mid}})},
+		{reflect.TypeOf(dTagTop{}), mk(dTagTop{}, dTagTop{DTagged{1, 2}, DPlain{3, 4}})},
+		{reflect.TypeOf(dTwoPlain{}), mk(dTwoPlain{}, dTwoPlain{DPlain{3, 4}, mid})},
+		{reflect.TypeOf(DC{}), mk(DC{}, DC{mid, 2})},
+	}
+	return append(shapes, embeddedTypesBase()...)
+}
+
+func embeddedTypesBase() []typeSpec {
 	v1 := embTop{Z: true}
 	v1.A, v1.B, v1.C = 11, 22, "x"
 	p1 := EmbTopP{EmbL1P: &EmbL1P{&EmbL2P{&EmbLeafP{A: 11, B: 22}}}, A: "top"}
@@ -855,6 +917,38 @@ func (c *codecRun) partValues() {
 			for _, pre := range targets {
 				atomic.AddInt64(ndec, 1)
 				c.decodeCompare(tn, ts.t, pre, t)
+			}
+		}
+		// key lists into TYPED maps: the member names of the outermost object, in document order, whatever the
+		// element type decodes on the way (nested maps, structs holding maps)
+		if ts.t.Kind() == reflect.Map && ts.t.Key().Kind() == reflect.String {
+			for _, t := range append(append([]string(nil), texts...), `{"zeta":{"k":1},"alpha":{},"middle":{"k2":2,"k":3}}`, `{"b":{"x":{"y":1}},"a":{"x":{}}}`, `{"z":[{"k":1}],"a":[]}`) {
+				want, err := rj.Parse([]byte(t))
+				if err != nil || want.K != rj.Obj || rj.HasDup(want) {
+					continue
+				}
+				names := make([]string, len(want.O))
+				for i, m := range want.O {
+					names[i] = m.Name
+				}
+				for _, fn := range []string{"UnmarshalWithKeys", "UnmarshalValidWithKeys"} {
+					target := reflect.New(ts.t)
+					var keys []string
+					var derr error
+					p := safeCall(func() {
+						if fn == "UnmarshalWithKeys" {
+							keys, derr = zj.UnmarshalWithKeys([]byte(t), target.Interface())
+						} else {
+							keys, derr = zj.UnmarshalValidWithKeys([]byte(t), target.Interface())
+						}
+					})
+					atomic.AddInt64(c.n, 1)
+					if p != "" {
+						c.viol("values", "unmarshal-panics", "unmarshal-panics:"+fn, fmt.Sprintf("%s(%q) into %s panics: %s", fn, t, tn, p), CodecCase{What: "keys", Type: tn, Text: t})
+					} else if derr == nil && fmt.Sprintf("%q", keys) != fmt.Sprintf("%q", names) {
+						c.viol("values", "keys-not-in-document-order", "keys-not-in-document-order:"+fn+":typed", fmt.Sprintf("%s(%q) into %s reports keys %q, document order is %q", fn, t, tn, keys, names), CodecCase{What: "keys", Type: tn, Text: t})
+					}
+				}
 			}
 		}
 		if ti%(len(types)/6+1) == 0 && len(ts.vals) > 1 {
